@@ -296,6 +296,31 @@ func runC13(r *mc.Run) {
 			add(fmt.Sprintf("bad/int/tcb%d=%s", i+1, bi.name), base, assemble(base, stdOrder, t, top), wantError)
 		}
 	}
+	// an out-of-range component that agrees in its low octet with what ANOTHER member says about the same component
+	// (the CPUSVN string, listed before / after it), and out-of-range PCESVN values agreeing with the low 16 bits
+	for i := 0; i < 16; i++ {
+		for _, d := range []int64{256, -256, 65536, 1 << 32, -(1 << 32)} {
+			v := int64(base.CPUSVN[i]) + d
+			for _, cpuFirst := range []bool{true, false} {
+				t := append([][]byte(nil), tcb...)
+				t[i] = world.DERSeq(oid(2, i+1), world.DERInt64(v))
+				if cpuFirst {
+					t = append([][]byte{t[17]}, t[:17]...)
+				}
+				add(fmt.Sprintf("bad/int/tcb%d=cpusvn-byte%+d,cpusvn-first=%v", i+1, d, cpuFirst), base, assemble(base, stdOrder, t, top), wantError)
+			}
+		}
+	}
+	for _, d := range []int64{65536, -65536, 1 << 32} {
+		for _, cpuFirst := range []bool{true, false} {
+			t := append([][]byte(nil), tcb...)
+			t[16] = world.DERSeq(oid(2, 17), world.DERInt64(int64(base.PCESVN)+d))
+			if cpuFirst {
+				t = append([][]byte{t[17]}, t[:17]...)
+			}
+			add(fmt.Sprintf("bad/int/pcesvn%+d,cpusvn-first=%v", d, cpuFirst), base, assemble(base, stdOrder, t, top), wantError)
+		}
+	}
 	// TCB members under object identifiers the decoder does not expect: the member it replaces is absent
 	for i := 0; i < 18; i++ {
 		for _, arc := range []int{0, 19, 127, 128, 255, 300, 70000} {
